@@ -271,7 +271,7 @@ pub fn run_job(job: &Value, out: &mut impl Write) {
     // ---- 2. recover from every crash state
     let work = base.join("work");
     let mut groups: BTreeMap<String, (Value, usize, Vec<String>)> = BTreeMap::new();
-    let (mut n_states, mut n_nested) = (0usize, 0usize);
+    let (mut n_states, mut n_nested, mut n_torn) = (0usize, 0usize, 0usize);
     for (k, cp) in cps.iter().enumerate() {
         for j in prefixes(cp, step) {
             n_states += 1;
@@ -281,6 +281,9 @@ pub fn run_job(job: &Value, out: &mut impl Write) {
                 (Some(j), Some(b)) => j == 0 || j == b.len(),
                 _ => true,
             };
+            if !boundary {
+                n_torn += 1;     // the write in flight is neither absent nor complete
+            }
             let do_nested = nested == "all" || (nested == "boundaries" && boundary);
             let nrec = if do_nested {
                 Some(Arc::new(Mutex::new(Rec { dir: work.clone(), scratch: base.join("nsnaps"), ..Default::default() })))
@@ -330,7 +333,7 @@ pub fn run_job(job: &Value, out: &mut impl Write) {
         gs.push(o);
     }
     let names: Vec<String> = cps.iter().map(|c| c.name.clone()).collect();
-    let _ = writeln!(out, "{}", json!({"id": id, "groups": gs, "summary": {"crash_points": cps.len(), "crash_states": n_states, "nested_states": n_nested,
+    let _ = writeln!(out, "{}", json!({"id": id, "groups": gs, "summary": {"crash_points": cps.len(), "crash_states": n_states, "torn_states": n_torn, "nested_states": n_nested,
         "op_results": op_results, "final": acked_results, "point_names": names}}));
     let _ = std::fs::remove_dir_all(&base);
 }
